@@ -1,5 +1,6 @@
 import Idn.Basic
 import Idn.Descr
+import Idn.MergeIndex
 
 /-! # C16 — property theorems (statements only; proofs live in the family libraries) -/
 
@@ -39,6 +40,56 @@ theorem descr_disjoint :
     ∀ (cs : List (Nat × Nat)) (k i j : Nat)
     (hi : k ∈ descr (generateD cs) i) (hj : k ∈ descr (generateD cs) j), i = j :=
   @Idn.descr_disjoint
+end
+
+section
+open IdnM
+
+/-- merging (`MergeReversedDictsIdentities`): for input lists whose entries are pairwise token-disjoint (what
+`descr_disjoint` establishes for generated lists) the walks are exactly the connected components of the
+shares-a-name-or-e-mail relation: every identity lies inside one walk, walks share no token, no walk repeats a token,
+and two tokens lie in one walk exactly when they are connected.  The merged descriptions are the walks
+(`descr_eq`), so each is the union of its component's names and e-mails. -/
+theorem walks_components :
+    ∀ (rd1 rd2 : List Ident) (h1 : Disj rd1) (h2 : Disj rd2),
+    (∀ id ∈ rd1 ++ rd2, id ≠ [] → ∃ w ∈ walks rd1 rd2, ∀ p ∈ id, p ∈ w) ∧
+    (walks rd1 rd2).Pairwise (fun a b => ∀ x ∈ a, x ∉ b) ∧
+    (∀ w ∈ walks rd1 rd2, w.Nodup) ∧
+    (∀ w ∈ walks rd1 rd2, ∀ p ∈ w, ∀ q, q ∈ w ↔ Conn rd1 rd2 p q) :=
+  @IdnM.walks_components
+
+theorem descr_eq :
+    ∀ (rd1 rd2 : List Ident), (mergeDicts rd1 rd2).2 = (walks rd1 rd2).map join :=
+  @IdnM.descr_eq
+
+/-- every input identity receives a merged index naming the walk that holds all of its tokens, and keeps the pointer to
+its original position (`first` for the first list, `second` for the second) -/
+theorem mergeDicts_index :
+    ∀ (rd1 rd2 : List Ident) (h1 : Disj rd1) (h2 : Disj rd2)
+    (hne : ∀ a ∈ rd1 ++ rd2, a ≠ [])
+    (hj : ∀ a ∈ rd1 ++ rd2, ∀ b ∈ rd1 ++ rd2, join a = join b → a = b),
+    (∀ (i : Nat) (a : Ident), rd1[i]? = some a → ∃ mi, lookupMI (mergeDicts rd1 rd2).1 (join a) = some mi ∧
+      mi.first = (i : Int) ∧ ∃ w, (walks rd1 rd2)[mi.final]? = some w ∧ ∀ p ∈ a, p ∈ w) ∧
+    (∀ (i : Nat) (a : Ident), rd2[i]? = some a → ∃ mi, lookupMI (mergeDicts rd1 rd2).1 (join a) = some mi ∧
+      mi.second = (i : Int) ∧ ∃ w, (walks rd1 rd2)[mi.final]? = some w ∧ ∀ p ∈ a, p ∈ w) :=
+  @IdnM.mergeDicts_index
+
+/-- two identities share a merged index if and only if they are connected -/
+theorem same_index_iff :
+    ∀ (rd1 rd2 : List Ident) (h1 : Disj rd1) (h2 : Disj rd2)
+    (hne : ∀ a ∈ rd1 ++ rd2, a ≠ [])
+    (hj : ∀ a ∈ rd1 ++ rd2, ∀ b ∈ rd1 ++ rd2, join a = join b → a = b)
+    (a b : Ident) (ha : a ∈ rd1 ++ rd2) (hb : b ∈ rd1 ++ rd2),
+    ∃ ma mb, lookupMI (mergeDicts rd1 rd2).1 (join a) = some ma ∧ lookupMI (mergeDicts rd1 rd2).1 (join b) = some mb ∧
+      (ma.final = mb.final ↔ ∀ p ∈ a, ∀ q ∈ b, Conn rd1 rd2 p q) :=
+  @IdnM.same_index_iff
+
+/-- the premises are decidable; the correspondence evaluates `premisesCheck` on every well-formed pair of lists -/
+theorem premisesCheck_sound :
+    ∀ (rd1 rd2 : List Ident) (h : premisesCheck rd1 rd2 = true),
+    Disj rd1 ∧ Disj rd2 ∧ (∀ a ∈ rd1 ++ rd2, a ≠ []) ∧
+    (∀ a ∈ rd1 ++ rd2, ∀ b ∈ rd1 ++ rd2, join a = join b → a = b) :=
+  @IdnM.premisesCheck_sound
 end
 
 end Props.C16
